@@ -418,24 +418,80 @@ func verifC11Put(f []string) string {
 		// much more under load, so such a case gets a very long limit and is never called a hang
 		// for being slow.
 		if nb, err := strconv.ParseInt(f[1][6:], 10, 64); err == nil && (nb <= 0 || nb >= 1<<24) && nb <= BLOCKSIZE {
-			return verifC11PutOnce(f, 20*time.Minute)
+			return verifC11PutOnce(f, 20*time.Minute, nil)
 		}
 	}
 	limit := 30 * time.Second
 	if verifC11Hangs >= 2 {
 		limit = 500 * time.Millisecond
 	}
-	out := verifC11PutOnce(f, limit)
+	out := verifC11PutOnce(f, limit, nil)
 	if strings.HasPrefix(out, "hang") {
 		verifC11Hangs++
 		if verifC11Hangs <= 2 {
-			out = verifC11PutOnce(f, 60*time.Second)
+			out = verifC11PutOnce(f, 60*time.Second, nil)
 		}
 	}
 	return out
 }
 
-func verifC11PutOnce(f []string, limit time.Duration) string {
+// verifC11PutOnce runs one put. With share != nil the client is kept in *share and reused by the
+// next put of a `seq` case (same service list), so that anything the client remembers between
+// calls takes effect.
+// verifC11SeqCase runs `seq <k> <7 put fields> x k`: k puts, one after the other, on ONE KeepClient
+// (the puts list the same services; scripts, want, retries, data and picks are per put, and each
+// put's script is indexed by the requests of that put). Results are joined with " / ".
+func verifC11SeqCase(f []string) string {
+	k, err := strconv.Atoi(f[1])
+	if err != nil || k < 1 || len(f) != 2+7*k {
+		return "bad-op"
+	}
+	svcKey := func(field string) string { // uuid:type:writable of every service, scripts dropped
+		var ks []string
+		for _, s := range strings.Split(field, ";") {
+			p := strings.Split(s, ":")
+			if len(p) == 4 {
+				ks = append(ks, strings.Join(p[:3], ":"))
+			} else {
+				ks = append(ks, s)
+			}
+		}
+		return strings.Join(ks, ";")
+	}
+	run := func(limit time.Duration) string {
+		var kc *KeepClient
+		var outs []string
+		for i := 0; i < k; i++ {
+			pf := append([]string{"put"}, f[2+7*i:2+7*i+7]...)
+			if svcKey(pf[6]) != svcKey(f[2+5]) {
+				return "bad-op"
+			}
+			if strings.HasPrefix(pf[1], "puthr:") {
+				return "bad-op" // seq cases use the buffer entry points only
+			}
+			out := verifC11PutOnce(pf, limit, &kc)
+			if out == "bad-op" || strings.HasPrefix(out, "hang") {
+				return out
+			}
+			outs = append(outs, out)
+		}
+		return strings.Join(outs, " / ")
+	}
+	limit := 30 * time.Second
+	if verifC11Hangs >= 2 {
+		limit = 500 * time.Millisecond
+	}
+	out := run(limit)
+	if strings.HasPrefix(out, "hang") {
+		verifC11Hangs++
+		if verifC11Hangs <= 2 {
+			out = run(60 * time.Second)
+		}
+	}
+	return out
+}
+
+func verifC11PutOnce(f []string, limit time.Duration, share **KeepClient) string {
 	entry := f[1]
 	want, err1 := strconv.Atoi(f[2])
 	retries, err2 := strconv.Atoi(f[3])
@@ -497,15 +553,24 @@ func verifC11PutOnce(f []string, limit time.Duration) string {
 		}
 	}
 
-	kc := &KeepClient{
-		Arvados:       &arvadosclient.ArvadosClient{ApiToken: "tok"},
-		Want_replicas: want,
-		Retries:       retries,
-		HTTPClient:    ctl,
-		RequestID:     ctl.reqid,
-	}
-	if err := list.load(kc); err != nil {
-		return "load-error"
+	var kc *KeepClient
+	if share != nil && *share != nil {
+		kc = *share
+		kc.Want_replicas, kc.Retries, kc.HTTPClient, kc.RequestID = want, retries, ctl, ctl.reqid
+	} else {
+		kc = &KeepClient{
+			Arvados:       &arvadosclient.ArvadosClient{ApiToken: "tok"},
+			Want_replicas: want,
+			Retries:       retries,
+			HTTPClient:    ctl,
+			RequestID:     ctl.reqid,
+		}
+		if err := list.load(kc); err != nil {
+			return "load-error"
+		}
+		if share != nil {
+			*share = kc
+		}
 	}
 
 	var call func() (string, int, error)
@@ -756,6 +821,8 @@ func verifC11Case(line string) (out string) {
 	switch {
 	case f[0] == "put" && len(f) == 8:
 		return verifC11Put(f)
+	case f[0] == "seq" && len(f) >= 9:
+		return verifC11SeqCase(f)
 	case f[0] == "upl" && len(f) == 2:
 		return verifC11Upl(f)
 	case f[0] == "load" && len(f) == 3:
